@@ -1,7 +1,266 @@
-//! Generators for the remaining families.
+//! Generators for the families stop and bp.
+use crate::gen::*;
 use crate::model::*;
 
-pub fn generate(family: &str, _seed: u64) -> Program {
-    eprintln!("simcheck: unknown family {family}");
-    std::process::exit(2);
+pub fn generate(family: &str, seed: u64) -> Program {
+    match family {
+        "stop" => stop(seed),
+        "bp" => bp(seed),
+        _ => crate::gen3::generate(family, seed),
+    }
+}
+
+fn sub_direct() -> SubCfg {
+    SubCfg { kind: SubKind::Direct, read_state: false, gate: None, sleep_ms: 0, shared: false }
+}
+
+/// family stop: producers, thunks and readers racing stop() / close();stop() / drop(DroppableStore)
+pub fn stop(seed: u64) -> Program {
+    let mut g = Gen::new(seed);
+    let knobs = g.knobs(false);
+    let policy = match g.rng.below(10) {
+        0..=6 => Policy::Block,
+        7 => Policy::DropOldest,
+        _ => Policy::DropLatest,
+    };
+    let nred = g.rng.range(1, 2) as u32;
+    let reds: Vec<u32> = (0..nred).collect();
+    let mws: Vec<u32> = if g.rng.chance(25) { vec![100] } else { vec![] };
+    let cap = g.rng.pick(&CAPS);
+    let name = if g.rng.chance(50) { "store".to_string() } else { "st".to_string() };
+    let builder = g.canonical_builder(&name, cap, policy, &reds, &mws);
+    let droppable = g.rng.chance(45);
+    let stores = vec![StoreCfg { builder, droppable, stepper: None, ctor: 0 }];
+    let mut subs = vec![];
+    let mut main = vec![Op::Build { store: 0 }];
+    let mut regs = 0;
+    for _ in 0..g.rng.below(3) {
+        subs.push(sub_direct());
+        main.push(Op::AddSub { store: 0, sub: subs.len() - 1, reg: regs });
+        regs += 1;
+    }
+    if g.rng.chance(35) {
+        subs.push(SubCfg {
+            kind: SubKind::Channeled { cap: g.rng.pick(&[1, 2, 4, 16]), policy: Policy::Block },
+            read_state: false,
+            gate: None,
+            sleep_ms: 0,
+            shared: false,
+        });
+        main.push(Op::AddSub { store: 0, sub: subs.len() - 1, reg: regs });
+        regs += 1;
+    }
+    let stall = g.rng.chance(8);
+    let mut threads: Vec<Vec<Op>> = vec![vec![]];
+    let nprod = g.rng.range(1, 3) as usize;
+    for _ in 0..nprod {
+        let n = g.rng.range(1, 5) as usize;
+        let mut ops = vec![];
+        for _ in 0..n {
+            if g.rng.chance(12) {
+                // a thunk that dispatches follow-ups through the dispatcher it is handed
+                let k = g.rng.range(1, 2);
+                let fups: Vec<ActId> = (0..k).map(|_| g.plain_act(&reds, 0)).collect();
+                let id = g.new_eff();
+                ops.push(Op::Thunk { store: 0, eff: EffSpec { id, kind: EffKind::Thunk(fups), panic: false, gate: None, sleep_ms: 0 } });
+            } else {
+                let a = g.plain_act(&reds, 10);
+                if stall && g.rng.chance(30) {
+                    let ms = g.rng.pick(&[1u32, 100, 2900, 3100, 10_000]);
+                    g.acts.get_mut(&a).unwrap().red.entry(0).or_default().sleep_ms = ms;
+                }
+                let via = g.via();
+                ops.push(Op::Dispatch { store: 0, act: a, via });
+            }
+        }
+        threads.push(ops);
+    }
+    if g.rng.chance(30) {
+        threads.push((0..g.rng.range(1, 3)).map(|_| Op::GetState { store: 0 }).collect());
+    }
+    // the stopper: a thread of its own or the main thread, at a random point
+    let shutdown_op = |g: &mut Gen| if droppable && g.rng.chance(80) { Op::DropStore { store: 0 } } else { Op::Stop { store: 0 } };
+    let mut stopper = vec![];
+    if g.rng.chance(25) {
+        stopper.push(Op::Close { store: 0 });
+    }
+    stopper.push(shutdown_op(&mut g));
+    // after the stop: everything must be rejected / immediate
+    let after = g.rng.range(1, 3);
+    for _ in 0..after {
+        match g.rng.below(4) {
+            0 => stopper.push(Op::Stop { store: 0 }),
+            1 => stopper.push(Op::GetState { store: 0 }),
+            _ => {
+                let a = g.plain_act(&reds, 0);
+                let via = g.via();
+                stopper.push(Op::Dispatch { store: 0, act: a, via });
+            }
+        }
+    }
+    let stopper_is_thread = g.rng.chance(70);
+    let racing_second = g.rng.chance(8);
+    if stopper_is_thread {
+        threads.push(stopper.clone());
+    }
+    if racing_second {
+        threads.push(vec![Op::Stop { store: 0 }]);
+    }
+    for t in 1..threads.len() {
+        main.push(Op::Start { thread: t });
+    }
+    if !stopper_is_thread {
+        main.extend(stopper);
+    }
+    for t in 1..threads.len() {
+        main.push(Op::Join { thread: t });
+    }
+    main.push(Op::Stop { store: 0 });
+    main.push(Op::GetState { store: 0 });
+    main.push(Op::GetMetrics { store: 0 });
+    let a = g.plain_act(&reds, 0);
+    main.push(Op::Dispatch { store: 0, act: a, via: Via::Disp });
+    for r in 0..regs {
+        main.push(Op::Unsub { reg: r });
+    }
+    threads[0] = main;
+    g.finish("stop", stores, subs, regs, 0, 0, threads, knobs, false)
+}
+
+/// family bp: backpressure scenarios with a stepper reducer and settle(), plus free-running ones
+pub fn bp(seed: u64) -> Program {
+    let mut g = Gen::new(seed);
+    let mut knobs = g.knobs(false);
+    let variant = g.rng.below(10);
+    let policy = if variant >= 3 && variant <= 5 {
+        Policy::Block
+    } else {
+        g.rng.pick(&[Policy::Block, Policy::DropOldest, Policy::DropLatest, Policy::DropOldest, Policy::DropLatest])
+    };
+    let cap = g.rng.pick(&[1usize, 1, 2, 2, 3, 5, 16]);
+    let reds = vec![0u32];
+    let name = "bp".to_string();
+    let builder = g.canonical_builder(&name, cap, policy, &reds, &[]);
+    let mut subs = vec![];
+    let mut main = vec![Op::Build { store: 0 }];
+    let mut regs = 0;
+    if g.rng.chance(50) {
+        subs.push(sub_direct());
+        main.push(Op::AddSub { store: 0, sub: 0, reg: 0 });
+        regs = 1;
+    }
+    let mut threads: Vec<Vec<Op>> = vec![vec![]];
+    let mut stores = vec![StoreCfg { builder, droppable: false, stepper: Some((0, 0)), ctor: 0 }];
+    let mut gates = 1;
+    let simple = |g: &mut Gen| {
+        let a = g.new_act();
+        g.acts.insert(a, ActScript { sel: g.rng.below(3) as u8, ..Default::default() });
+        a
+    };
+    match variant {
+        // (A) deterministic controller script under a drop policy (or Block without overfilling)
+        0..=2 | 6 | 7 => {
+            let mut held = false;
+            let mut qlen = 0usize;
+            let a0 = simple(&mut g);
+            let via = g.via();
+            main.push(Op::Dispatch { store: 0, act: a0, via });
+            main.push(Op::Settle);
+            held = held || true;
+            let phases = g.rng.range(1, 4);
+            for _ in 0..phases {
+                let n = if policy == Policy::Block { g.rng.range(0, (cap - qlen) as u64) as usize } else { g.rng.range(1, (3 * cap).min(12) as u64) as usize };
+                for _ in 0..n {
+                    let a = simple(&mut g);
+                    let via = g.via();
+                    main.push(Op::Dispatch { store: 0, act: a, via });
+                    if qlen < cap {
+                        qlen += 1;
+                    }
+                }
+                if g.rng.chance(40) {
+                    main.push(Op::Settle);
+                    main.push(Op::Snap { tag: 0 });
+                }
+                if qlen > 0 && g.rng.chance(70) {
+                    let k = g.rng.range(1, qlen as u64) as usize;
+                    main.push(Op::Open { gate: 0, n: k as u32 });
+                    main.push(Op::Settle);
+                    qlen -= k;
+                }
+            }
+            let _ = held;
+            main.push(Op::Open { gate: 0, n: 1_000_000 });
+            main.push(Op::Settle);
+        }
+        // (B) BlockOnFull with producer threads, one step at a time
+        3..=5 => {
+            let nprod = g.rng.range(1, 3) as usize;
+            let mut total = 0;
+            for _ in 0..nprod {
+                let n = g.rng.range(1, (2 * cap + 2).min(8) as u64) as usize;
+                total += n;
+                let mut ops = vec![];
+                for _ in 0..n {
+                    let a = simple(&mut g);
+                    let via = g.via();
+                    ops.push(Op::Dispatch { store: 0, act: a, via });
+                }
+                threads.push(ops);
+            }
+            for t in 1..threads.len() {
+                main.push(Op::Start { thread: t });
+            }
+            main.push(Op::Settle);
+            main.push(Op::Snap { tag: 0 });
+            let steps = g.rng.range(1, total as u64 + 1);
+            for k in 0..steps {
+                let n = if g.rng.chance(80) { 1 } else { 2 };
+                main.push(Op::Open { gate: 0, n });
+                main.push(Op::Settle);
+                main.push(Op::Snap { tag: k as u32 + 1 });
+            }
+            main.push(Op::Open { gate: 0, n: 1_000_000 });
+            for t in 1..threads.len() {
+                main.push(Op::Join { thread: t });
+            }
+        }
+        // (C) free-running: producers against a reducer that is sometimes slow
+        _ => {
+            stores[0].stepper = None;
+            gates = 0;
+            knobs.step_limit = 80_000;
+            let nprod = g.rng.range(1, 3) as usize;
+            for _ in 0..nprod {
+                let n = g.rng.range(1, 6) as usize;
+                let mut ops = vec![];
+                for _ in 0..n {
+                    let a = simple(&mut g);
+                    if g.rng.chance(15) {
+                        g.acts.get_mut(&a).unwrap().red.insert(0, RedScript { keep: false, eff: None, gate: None, sleep_ms: g.rng.pick(&[1, 50]) });
+                    }
+                    let via = g.via();
+                    ops.push(Op::Dispatch { store: 0, act: a, via });
+                }
+                threads.push(ops);
+            }
+            for t in 1..threads.len() {
+                main.push(Op::Start { thread: t });
+            }
+            if g.rng.chance(30) {
+                main.push(Op::GetMetrics { store: 0 });
+            }
+            for t in 1..threads.len() {
+                main.push(Op::Join { thread: t });
+            }
+        }
+    }
+    main.push(Op::Stop { store: 0 });
+    main.push(Op::GetMetrics { store: 0 });
+    main.push(Op::GetState { store: 0 });
+    for r in 0..regs {
+        main.push(Op::Unsub { reg: r });
+    }
+    threads[0] = main;
+    g.finish("bp", stores, subs, regs, 0, gates, threads, knobs, false)
 }
